@@ -18,13 +18,13 @@ Section Buf.
     f_equal; lia.
   Qed.
 
-  Lemma buf_ranges_ok : (0 < len)%nat -> ranges_ok lens O [(O, O, (len - 0)%nat)] = true.
+  Lemma buf_ranges_ok : (0 < len)%nat -> ranges_ok lens O true [(O, O, (len - 0)%nat)] = true.
   Proof.
     intros L. cbn [ranges_ok List.length nth]. unfold stage. cbn [firstn sumn].
     assert (E1 : (0 <? 1)%nat = true) by reflexivity.
     assert (E2 : (0 + (len - 0) <=? len)%nat = true) by lia.
     assert (E3 : (len - 0 =? 0)%nat = false) by lia.
-    assert (E4 : (0 <=? 0 + 0)%nat = true) by reflexivity.
+    assert (E4 : (0 =? 0 + 0)%nat = true) by reflexivity.
     rewrite E1, E2, E3, E4. reflexivity.
   Qed.
 
